@@ -279,8 +279,17 @@ func (c *client) SendBatch(ctx context.Context, batch []hrpc.Call) (
 	serverErrorCount := 0
 
 	for {
-		rpcByClient, ok := c.findClients(ctx, batch, res)
+		// findClients reports errors by position in the batch it is given. In retry
+		// rounds batch is a reordered subset of the original batch, so collect the
+		// errors separately and store them at the original index of each RPC.
+		lookupRes := make([]hrpc.RPCResult, len(batch))
+		rpcByClient, ok := c.findClients(ctx, batch, lookupRes)
 		if !ok {
+			for i, rpc := range batch {
+				if lookupRes[i].Error != nil {
+					res[rpcToRes[rpc]] = lookupRes[i]
+				}
+			}
 			return res, false
 		}
 		sendBatchSplitCount.Observe(float64(len(rpcByClient)))
